@@ -207,7 +207,8 @@ class _Simu(_IObserver, _params.Updatable, ABC):
         if dofs is None:
             dofs = self.Get_dofs()
 
-        return Reduce_sum(0.5 * x[dofs] @ (A[dofs] @ x))
+        # (with Lagrange conditions the assembled matrices also hold the multiplier rows/columns)
+        return Reduce_sum(0.5 * x[dofs] @ (A[dofs][:, : x.shape[0]] @ x))
 
     def Calc_Reaction(
         self, dofs: _types.IntArray = None, problemType: ProblemType = None
